@@ -727,3 +727,106 @@ def c18(run):
     run.assumptions = AUTHZ_ASSUME
     t = "thorough" if run.tier == "thorough" else "quick"
     life_check(run, [("Lifecycle_snapshot_" + t, "L1 SnapshotEquiv / SaveRefusedIffEvaluated + export", {})])
+
+
+# =============================================================== C11 bounded evaluation / goroutines
+
+def leak_text(c):
+    return "scenario need=%d maxIter=%d rules=%d matches=%d exit=%s maxFactsHit=%s timer=%s via=%s" % (
+        c["need"], c["mi"], c["rules"], c["m"], c["exit"], c["mf"], c["timer"], c["via"])
+
+
+def leak_judge(c, o):
+    if "res" not in o:
+        return ["driver: " + json.dumps(o)[:300]]
+    bad = []
+    nominal = {"err": "failed"}.get(c["nominal"], c["nominal"])
+    allowed = {nominal, "timeout"} if c["timer"] else {nominal}
+    if o["res"] not in allowed:
+        bad.append("outcome %s, specification allows %s" % (o["res"], sorted(allowed)))
+    if o.get("stranded", 0) > 0:
+        bad.append("%d goroutine(s) still blocked after the evaluation returned: %s" % (o["stranded"], ", ".join(o.get("where", [])[:3])))
+    if o["elapsed_ms"] > o["budget_ms"] + 1500:
+        bad.append("returned after %.0f ms with a budget of %.1f ms" % (o["elapsed_ms"], o["budget_ms"]))
+    return bad
+
+
+@check("C11")
+def c11(run):
+    run.rule = ("L1: GoRoutines.tla (caller / runner+consumer / producer / timer over unbuffered channels) is model-checked for "
+                "NoStranded, NoFalseSuccess, RightSentinel and the liveness properties CallerReturns and <>[]AllExited under weak "
+                "fairness, over all 576 scenarios (iterations needed, maxIterations, rules, 0-3 matches, early exit kind/position, "
+                "maxFacts) with the timer firing at any step; the pinned tree's protocol (unbuffered done, uncancellable producer) "
+                "is refuted in three negative models. DatalogRun.tla gives the limit contract. L2: every scenario class x "
+                "{timer, no timer} x 4 entry points (World.Run, AuthorizerFor, Authorizer, NewVerifier) is built as a concrete "
+                "program; outcome class (errors.Is sentinels), return time and the goroutine profile after return are compared. "
+                "Non-trivial = distinct scenario x entry point combinations.")
+    run.assumptions = ["stranded = goroutine with a datalog.combine / World.Run frame still parked on a channel after no datalog "
+                       "goroutine is runnable any more (polled up to 4 s)",
+                       "timer scenarios use a 300 us budget on a cubic join; either the timeout or the nominal outcome is accepted"]
+    driver = core.build_driver(run.work)
+    r = core.tlc(run.work, "GoRoutines", "GoRoutines_fixed", deadlock=False)
+    run.add_tlc(r, "L1 protocol: NoStranded + liveness + export")
+    for neg in ("today", "neg_done", "neg_producer"):
+        rn = core.tlc(run.work, "GoRoutines", "GoRoutines_" + neg, expect_violation=True)
+        run.add_tlc(rn, "negative model " + neg)
+        if not rn.violated:
+            raise Infra("negative model GoRoutines_%s holds: NoStranded is vacuous" % neg)
+        run.notes.append("negative model %s: TLC reports %s violated" % (neg, rn.violated))
+    seen, cases = set(), []
+    vias = ["world", "authorizerfor", "authorizer", "newverifier"]
+    for c in r.cases:
+        sc = c["sc"]
+        if sc["m"] == 0 and (sc["mf"] or sc["need"] > 1):
+            continue   # not realisable: without a match nothing is derived (fixpoint in iteration 1, no fact to count)
+        for timer in ((False, True) if run.tier == "thorough" or len(seen) % 3 == 0 else (False,)):
+            key = (sc["need"], sc["mi"], sc["rules"], sc["m"], sc["exit"], sc["mf"], timer)
+            if key in seen:
+                continue
+            seen.add(key)
+            via = vias[len(cases) % 4] if run.tier != "thorough" else None
+            for v in ([via] if via else vias):
+                cases.append({"id": "k%d" % len(cases), "need": sc["need"], "mi": sc["mi"], "rules": sc["rules"], "m": sc["m"],
+                              "exit": sc["exit"], "mf": sc["mf"], "timer": timer, "heavy": 60 if timer else 0, "via": v,
+                              "nominal": c["nominal"]})
+    res = core.run_driver(driver, "leak", cases, nproc=8, per_case_timeout=120)
+    for c in cases:
+        o = res[c["id"]]
+        run.count(leak_text(c))
+        bad = leak_judge(c, o) if not o.get("crash") else ["process died: " + o.get("stderr", "")[-300:]]
+        if bad:
+            sig = {"what": bad[0].split(":")[0][:60] if "goroutine" not in bad[0] else "stranded " + ",".join(sorted(set(w.split(" [")[0] for w in o.get("where", [])))),
+                   "exit": c["exit"], "timer": c["timer"], "via": c["via"] if "outcome" in bad[0] else "*"}
+
+            def confirm(c=c):
+                for _ in range(3):
+                    o2 = core.run_driver(driver, "leak", [dict(c)], nproc=1)[c["id"]]
+                    if not o2.get("crash") and leak_judge(c, o2):
+                        return True
+                return False
+            run.report(sig, c, "leak", "%s: %s" % (leak_text(c), "; ".join(bad)), confirm)
+    run.traces += len(cases)
+    run.sample({"scenario": leak_text(cases[len(cases) // 2]), "nominal": cases[len(cases) // 2]["nominal"]})
+    # limit contract on the programs of DatalogRun (sentinel identity, no success before the fixpoint)
+    r2 = core.tlc(run.work, "DatalogRun", "DatalogRun_thorough" if run.tier == "thorough" else "DatalogRun_quick", timeout=3400)
+    run.add_tlc(r2, "L1 Run loop with limits vs Lfp + export")
+    runs = [{"id": "r%d" % i, "emb": emb_of(run, i), "facts": c["facts"], "rules": c["rules"], "mf": c["mf"], "mi": c["mi"], "queries": []}
+            for i, c in enumerate(r2.cases)]
+    for c in runs:
+        run.count(("limit", json.dumps(c["facts"]), json.dumps(c["rules"]), c["mf"], c["mi"]))
+    validate_dl(run, driver, [], runs, "L2 limits")
+
+
+def replay_leak(run, body):
+    driver = core.build_driver(run.work)
+    c = dict(body["case"])
+    run.count("replay")
+    for _ in range(3):
+        o = core.run_driver(driver, "leak", [dict(c)], nproc=1)[str(c["id"])]
+        bad = leak_judge(c, o) if not o.get("crash") else ["process died"]
+        if bad:
+            run.report(body["sig"], c, "leak", "replayed: %s: %s" % (leak_text(c), "; ".join(bad)))
+            return
+
+
+REPLAYERS["leak"] = replay_leak
